@@ -113,6 +113,32 @@ class C20(F.Check):
                     v.family = "%s/%s" % (d, k.family)
                     ks.append(v)
                     self.pairs.append((base, v, vid, d))
+        # programs valid under every standard whose meaning changes with the standard library: relational comparison of
+        # std::pair / std::tuple / std::array of quantities uses the element's operator< before C++20 and operator<=> from C++20
+        # The raw rep has the same standard-dependence (std::pair<double,int> >= ... differs on NaN between C++17 and C++20), so the claim
+        # is: in EVERY configuration the Au program equals the same program on the raw rep (Au adds no dependence of its own).
+        self.own_pairs = []
+        own_pre = "#include <utility>\n#include <tuple>\n"
+        for r in ("double", "float", "int32_t", "int64_t"):
+            for nm, au_body, raw_body in (
+                    ("pair_lt", "return std::make_pair(meters(x), 1) < std::make_pair(meters(y), 0);",
+                     "return std::make_pair(x, 1) < std::make_pair(y, 0);"),
+                    ("pair_ge", "return std::make_pair(meters(x), 0) >= std::make_pair(meters(y), 0);",
+                     "return std::make_pair(x, 0) >= std::make_pair(y, 0);"),
+                    ("tuple_gt", "return std::make_tuple(meters(x), 0) > std::make_tuple(meters(y), 0);",
+                     "return std::make_tuple(x, 0) > std::make_tuple(y, 0);"),
+                    ("pair_pt_le", "return std::make_pair(1, meters_pt(x)) <= std::make_pair(1, meters_pt(y));",
+                     "return std::make_pair(1, x) <= std::make_pair(1, y);")):
+                for vid, std, var in [("base", "c++14", None)] + variants:
+                    pair = []
+                    for side, body in (("au", au_body), ("raw", raw_body)):
+                        k = F.Kernel("c20_%s_%s_%s__%s" % (nm, side, r.replace("_t", ""), vid), "bool", [(r, "x"), (r, "y")], body,
+                                     key={"rep": r, "what": nm, "config": vid}, family="std_container_compare", std=std)
+                        k.variant = var
+                        k.prelude = own_pre
+                        ks.append(k)
+                        pair.append(k)
+                    self.own_pairs.append((pair[0], pair[1], vid))
         # every public header compiles on its own (lowering-stage facts)
         self.alone = []
         hdrs = []
@@ -173,6 +199,24 @@ class C20(F.Check):
                       routes=F.FP_ROUTES if fp else ["z3-bv", "cvc5-bvint", "z3-int"],
                       note="same result bits and same trap condition as the c++14 multi-header baseline, for all inputs")
             obs.append(ob)
+        for ka, kr, vid in self.own_pairs:
+            if K[ka.name].kernel.dropped or K[kr.name].kernel.dropped:
+                if bool(K[ka.name].kernel.dropped) != bool(K[kr.name].kernel.dropped):
+                    ob = F.Ob("container_compare:%s" % ka.name, [], None, kind="closed",
+                              key=dict(ka.key, compile_error=(K[ka.name].kernel.dropped or K[kr.name].kernel.dropped)[:200]), kernels=[ka.name, kr.name])
+                    ob.status = "lowering-failed"
+                    obs.append(ob)
+                continue
+            xs = [("x", F.ct_sort(ka.args[0][0])), ("y", F.ct_sort(ka.args[1][0]))]
+
+            def fnc(K, x, y, an=ka.name, rn=kr.name):
+                a, b = K[an](x, y), K[rn](x, y)
+                return T.TRUE, T.and_(T.eq(a.ub, b.ub), T.or_(a.ub, T.eq(a.ret, b.ret)))
+            fp = F.ct_is_float(ka.args[0][0])
+            obs.append(F.Ob("container_compare:%s" % ka.name, xs, fnc, key=ka.key, kernels=[ka.name, kr.name],
+                            routes=F.FP_ROUTES if fp else F.CMP_ROUTES,
+                            note="relational comparison of std::pair/tuple holding quantities equals the same comparison on the raw rep, in this configuration "
+                                 "(pre-C++20 the library uses the element's <, from C++20 its <=>)"))
         for k in self.alone:
             if K[k.name].kernel.dropped:
                 ob = F.Ob("header_alone:%s" % k.key["header"], [], None, kind="closed",
